@@ -48,6 +48,7 @@ class UnitTables:
         self.model = model
         self.tables = {}      # class that defines __UNITS -> {unit: Rat}
         self.nodes = {}       # class -> dict node
+        self.duplicates = []  # (kind, unit, line) of keys written more than once in a table literal
         for k in model.quantity_kinds():
             ci = model.classes[k]
             if '__UNITS' in ci.class_attrs:
@@ -59,7 +60,8 @@ class UnitTables:
                     if not (isinstance(kk, ast.Constant) and isinstance(kk.value, str)):
                         raise AnalysisError(f'{k}.__UNITS has a non-literal key')
                     if kk.value in tab:
-                        raise AnalysisError(f'{k}.__UNITS has duplicate key {kk.value!r}')
+                        # Python keeps the LAST value of a repeated key: the table the program runs with has that one
+                        self.duplicates.append((k, kk.value, kk.lineno))
                     tab[kk.value] = const_fold(v, model.module_consts.get(ci.module, {}))
                 self.tables[k] = tab
                 self.nodes[k] = d
